@@ -269,7 +269,10 @@ pub fn specs(tier: &str) -> Vec<ExpSpec> {
                 }
                 let name = format!("{}-free-{sn}-hint-{hn}", sh.name);
                 let sp = sparse(&sh, set, *h, &name);
-                v.push(ExpSpec::new(sp.cfg, alphabet(cs as u32), if th { 5 } else { 4 }));
+                // with a single free cluster every allocation on the full volume scans the whole FAT (one device call
+                // per entry): one level less
+                let d = if sn == "last-only" { if th { 4 } else { 3 } } else if th { 5 } else { 4 };
+                v.push(ExpSpec::new(sp.cfg, alphabet(cs as u32), d));
             }
         }
     }
